@@ -1,6 +1,7 @@
 """Tag-report rig shared by C16 and C36 (new file; engine_rig.py is used unchanged).
 
-One generated run = real Engine on the virtual clock (EngineRig, totalizer UOD, archiver on/off) + the real
+One generated run = real Engine on the virtual clock (EngineRig, totalizer UOD in three accumulator configurations, scripted
+totalizer with plateaus, archiver on/off) + the real
 EngineMessageBuilder taking incremental / snapshot tag reports after random 1-7 ticks.
 
 Observation attached from the harness only:
